@@ -31,6 +31,7 @@ type Parsed struct {
 	Rem   []byte
 	Val   interface{}
 	Obs   Obs
+	SerErr string // the reader accepted (nil error) but the value it returned cannot be serialised
 }
 
 type Parser struct {
@@ -52,7 +53,7 @@ func kacParsed(k *keys_and_cert.KeysAndCert, rem []byte, err error) Parsed {
 	}
 	b, berr := k.Bytes()
 	if berr != nil {
-		return Parsed{Obs: ERR()}
+		return Parsed{Obs: ERR(), SerErr: berr.Error()}
 	}
 	var pub, spk []byte
 	if k.ReceivingPublic != nil {
@@ -219,7 +220,7 @@ func init() {
 				}
 				bs, berr := ri.Bytes()
 				if berr != nil {
-					return Parsed{Obs: ERR()}
+					return Parsed{Obs: ERR(), SerErr: berr.Error()}
 				}
 				return Parsed{OK: true, Bytes: bs, Rem: rem, Val: &ri, Obs: OK(bs, rem)}
 			},
@@ -232,7 +233,7 @@ func init() {
 				}
 				bs, berr := ls.Bytes()
 				if berr != nil {
-					return Parsed{Obs: ERR()}
+					return Parsed{Obs: ERR(), SerErr: berr.Error()}
 				}
 				return Parsed{OK: true, Bytes: bs, Val: &ls, Obs: OK(bs)}
 			},
@@ -245,7 +246,7 @@ func init() {
 				}
 				bs, berr := ls.Bytes()
 				if berr != nil {
-					return Parsed{Obs: ERR()}
+					return Parsed{Obs: ERR(), SerErr: berr.Error()}
 				}
 				return Parsed{OK: true, Bytes: bs, Rem: rem, Val: &ls, Obs: OK(bs, rem)}
 			},
@@ -258,7 +259,7 @@ func init() {
 				}
 				bs, berr := m.Bytes()
 				if berr != nil {
-					return Parsed{Obs: ERR()}
+					return Parsed{Obs: ERR(), SerErr: berr.Error()}
 				}
 				return Parsed{OK: true, Bytes: bs, Rem: rem, Val: &m, Obs: OK(bs, rem)}
 			},
@@ -271,7 +272,7 @@ func init() {
 				}
 				bs, berr := e.Bytes()
 				if berr != nil {
-					return Parsed{Obs: ERR()}
+					return Parsed{Obs: ERR(), SerErr: berr.Error()}
 				}
 				return Parsed{OK: true, Bytes: bs, Rem: rem, Val: &e, Obs: OK(bs, rem)}
 			},
